@@ -65,6 +65,11 @@ Definition euler_implicit_A (x : Vec) : Vec :=
 Definition euler_implicit_lhs (x : Vec) : Vec :=
   vadd (vadd (K (G euler_implicit_ev_ut x)) (C (G euler_implicit_ev_vt x))) (M (G euler_implicit_ev_at x)).
 
+(* the matrix assembled in _Solver_Apply_Dirichlet (generated euler_implicit_sysop) is this weighted sum *)
+Theorem euler_implicit_sysop_is_weighted_sum : forall x y i,
+  (G euler_implicit_sysop y) x i = euler_implicit_A x i.
+Proof. unfold euler_implicit_A; vf. Qed.
+
 (* row i of the system minus row i of the right-hand side of _Solver_Apply_Neumann
    = residual of the equation of motion at dof i *)
 Theorem euler_implicit_eom_identity : forall x i,
@@ -89,12 +94,27 @@ Proof.
   pose proof (euler_implicit_eom_identity (vadd y d) i). lra.
 Qed.
 
+(* the statement of the property in terms of what one step RETURNS: the new state (u,v,a)^{n+1} makes
+   K u_t + C v_t + M a_t equal the load at the documented evaluation points, on every solved (free) dof *)
+Theorem euler_implicit_step_correct : forall x i,
+  euler_implicit_A x i = G euler_implicit_rhs x i ->
+  K (G euler_implicit_up_u x) i + C (G euler_implicit_up_v x) i + M (G euler_implicit_up_a x) i = bN i + F i.
+Proof using All.
+  intros x i H. pose proof (euler_implicit_discrete_eom x i H) as E. unfold euler_implicit_lhs, vadd in E.
+  assert (E1 : G euler_implicit_up_u x = G euler_implicit_ev_ut x) by (extensionality j; symmetry; apply euler_implicit_eval_consistent).
+  assert (E2 : G euler_implicit_up_v x = G euler_implicit_ev_vt x) by (extensionality j; symmetry; apply euler_implicit_eval_consistent).
+  assert (E3 : G euler_implicit_up_a x = G euler_implicit_ev_at x) by (extensionality j; symmetry; apply euler_implicit_eval_consistent).
+  rewrite E1, E2, E3. lra.
+Qed.
+
 End S_euler_implicit.
 
 Print Assumptions euler_implicit_params_stored.
 Print Assumptions euler_implicit_update_rule.
 Print Assumptions euler_implicit_eval_consistent.
 Print Assumptions euler_implicit_coefs_are_derivatives.
+Print Assumptions euler_implicit_sysop_is_weighted_sum.
 Print Assumptions euler_implicit_eom_identity.
 Print Assumptions euler_implicit_discrete_eom.
 Print Assumptions euler_implicit_newton_consistent.
+Print Assumptions euler_implicit_step_correct.
